@@ -546,7 +546,7 @@ def _crash():
 
     # the min-max sift-up only compares after a shift when it starts on level 3: position 7,
     # n = 8 (identity tables, the addressed element at position 7 / the new element)
-    for opi, op, n, k, t in ((1, "change", 8, 7, QUICK), (0, "push", 7, 7, QUICK), (3, "remove", 8, 3, THOROUGH),
+    for opi, op, n, k, t in ((1, "change", 8, 7, THOROUGH), (0, "push", 7, 7, QUICK), (3, "remove", 8, 3, THOROUGH),
                              (9, "push_dec", 8, 7, THOROUGH), (1, "change", 8, 3, THOROUGH)):
         grow = 1 if op in ("push", "push_dec") else 0
         inst(f"crash_dq_{op}_n{n}_idk{k}", f"crash::crash::<DqI, {n}>({opi}, Tables::IdentityKey({k}))", "dq", n + grow,
